@@ -17,7 +17,7 @@ try:
     subprocess.check_call(["git", "-C", "/repo", "worktree", "add", "-q", "--detach", wt, "HEAD"])
     demo_path = os.path.join(wt, demo_dest)
     shutil.copy(os.path.join(src, "demo_test.go"), demo_path)
-    targs = ["go", "test", "-vet=off", "-count=1"] + (["-race"] if race == "1" else []) + ["-run", run, pkg]
+    targs = ["go", "test", "-vet=off", "-count=1", "-timeout", "60s"] + (["-race"] if race == "1" else []) + ["-run", run, pkg]
     rc, out = sh(targs)
     res["demo_clean_pass"] = rc == 0
     res["steps"].append({"cmd": " ".join(targs) + " (clean tree)", "rc": rc})
